@@ -1,4 +1,5 @@
 import Driver.Util
+import Amqp.Model.Parked
 import Amqp.Model.Errors
 open Amqp Amqp.ChanErr Amqp.Errors
 namespace Driver.C07
@@ -52,6 +53,10 @@ def stepCmd (c : C) : List String → Option (C × String)
       let c' := onChannelClose c i code; (c', s!"ok {showC c'}")
   | ["c07.connclose", code, k] => code.toNat?.bind fun code => k.toNat?.map fun k =>
       let c' := onConnClosePrefix c code k; (c', s!"ok {showC c'}")
+  | ["c07.takes", n, q] => n.toNat?.bind fun n =>
+    ((if q = "-" then some [] else (q.splitOn ",").mapM (·.toNat?)) : Option (List Nat)).map fun q =>
+      let p := Amqp.Parked.takes n q
+      (c, s!"raised={p.1} parked={p.2}")
   | ["c07.errortype", code] => code.toNat?.map fun code => (c, (errorType code).getD "none")
   | _ => none
 
